@@ -69,6 +69,7 @@ func runC18(c *core.Ctx) {
 	runR188(c, runR187(c))
 	runR189(c)
 	runR1810(c)
+	runR1811(c)
 
 	// ---- R18.2
 	lockKey := "T:" + core.Mod + "/metrics.hist.lock*"
